@@ -42,6 +42,9 @@ type Prog struct {
 	NormaliseLog []string
 }
 
+// progOf: the loaded program an SSA program belongs to (two views of the tree may be loaded side by side).
+var progOf = map[*ssa.Program]*Prog{}
+
 func infraFail(format string, a ...any) {
 	fmt.Fprintf(os.Stderr, "INFRA-FAILURE: "+format+"\n", a...)
 	fmt.Printf("INFRA-FAILURE: "+format+"\n", a...)
@@ -162,6 +165,7 @@ func Load(dir string, overlayDir string, normalise bool) *Prog {
 	}
 	prog.Build()
 	p.SSA = prog
+	progOf[prog] = p
 	for i, sp := range spkgs {
 		_ = i
 		for _, m := range sp.Members {
